@@ -264,6 +264,8 @@ def run(ctx, R, tier):
     # a setter's value is the one in use from the next callback on: nothing runs on a cached copy of a parameter's value
     from .c06 import param_cache
     param_cache(F, R, rule='B.C07.param-cache')
+    from .c09 import transport_cmd_order
+    transport_cmd_order(F, R, rule='B.C07.order')
     # every parameter a handle can set has a reader of its own handed to it (a channel shared between several resources is
     # last-write-wins across them: a command to one erases a pending command to another)
     from .c06 import cover as parameter_cover
